@@ -148,6 +148,7 @@ pub fn get(prop: &str, tier: &str) -> Option<Check> {
             prop: "C15",
             rule_text: "each run: real TCP server task with max_sessions in 0..5, 4-28 actions over {connect (optionally with the oldest session left mid-frame), client close/half-close, sentinel request, bad header / read error / unknown function on one connection, set decode level, shutdown, drop handle}; after every action the set of open connections must equal model::sessions (ordered live set, limit max(1,max_sessions), oldest evicted exactly at the limit), every live session answers its sentinel correctly whatever happened on the others, after shutdown/handle drop the task has ended, every connection is closed and new connects are refused. Distinct = hash of (max_sessions, decode level, action kinds).",
             batches: vec![
+                Batch { name: "level_storm_stalled_session", f: scen::server_tcp::run_level_storm, cfg: cfg(Mode::LockStep, true, 0), runs: n(10_000, 300_000), real: REAL_SERVER_TCP, stub: STUB_SERVER_TCP },
                 Batch { name: "server_sessions", f: scen::sessions::run_sessions, cfg: cfg(Mode::LockStep, false, 0), runs: n(100_000, 3_000_000), real: REAL_SERVER_TCP, stub: STUB_SERVER_TCP },
                 Batch { name: "tls_handshake_stall_server", f: scen::tls::run_handshake_stall, cfg: cfg(Mode::Racy, true, 1), runs: n(600, 20_000), real: REAL_TLS, stub: STUB_TLS },
                 Batch { name: "server_tcp_racy", f: scen::server_tcp::run_racy, cfg: cfg(Mode::Racy, true, 0), runs: n(30_000, 1_000_000), real: REAL_SERVER_TCP, stub: STUB_SERVER_TCP },
@@ -220,7 +221,7 @@ pub fn get(prop: &str, tier: &str) -> Option<Check> {
         },
         "C20" => Check {
             prop: "C20",
-            rule_text: "each run replays one tape of the C01/C02/C05, C06/C17, C03 and C04/C10-C14 workloads three times on the canonical schedule (FIFO ready queue, select! start 0, whole reads/writes): at DecodeLevel::nothing(), at (DataValues, Payload, Data), and with a run-time level change (client: set_decode_level on a handle; server: ServerHandle::set_decode_level) injected before action k (k and the level derived from the tape, k in 0..24, so positions while a transaction is outstanding are covered); the harness subscriber formats every log line in all runs; observable = all wire bytes in both directions with their virtual instants, every request result and completion instant, listener states, handler journals: must be byte-identical. Distinct = base workload hash x injection position.",
+            rule_text: "each run replays one tape of the C01/C02/C05, C06/C17, C03 and C04/C10-C14 workloads three times on the canonical schedule (FIFO ready queue, select! start 0, whole reads/writes): at DecodeLevel::nothing(), at (DataValues, Payload, Data), and with a run-time level change (client: set_decode_level on a handle; server: ServerHandle::set_decode_level) injected before action k (k and the level derived from the tape, k in 0..24, so positions while a transaction is outstanding are covered); the harness subscriber formats every log line in all runs; observable = all wire bytes in both directions with their virtual instants, every request result and completion instant, listener states, handler journals: must be byte-identical. Storm batch (level_storm_stalled_session): one session is blocked inside a transaction (its peer's window is 1-64 bytes and it does not read, optionally with another request pipelined behind), the application calls set_decode_level 1-20 times without waiting; a second peer must be served meanwhile, the blocked reply and the pipelined one must arrive complete and in order once the peer reads, the session must go on, the calls must return and shutdown must end the task. Distinct = base workload hash x injection position.",
             batches: vec![
                 Batch { name: "paired_server_tcp", f: scen::paired::server_tcp, cfg: cfg(Mode::LockStep, false, 0), runs: n(20_000, 600_000), real: REAL_SERVER_TCP, stub: STUB_SERVER_TCP },
                 Batch { name: "paired_client_tcp", f: scen::paired::client_tcp, cfg: cfg(Mode::LockStep, false, 0), runs: n(30_000, 800_000), real: REAL_CLIENT_TCP, stub: STUB_CLIENT_TCP },
@@ -228,6 +229,7 @@ pub fn get(prop: &str, tier: &str) -> Option<Check> {
                 Batch { name: "paired_client_rtu", f: scen::paired::client_rtu, cfg: cfg(Mode::LockStep, false, 0), runs: n(15_000, 400_000), real: REAL_CLIENT_RTU, stub: STUB_CLIENT_RTU },
                 Batch { name: "paired_server_chunking", f: scen::paired::server_chunking, cfg: cfg(Mode::LockStep, false, 0), runs: n(10_000, 300_000), real: REAL_SERVER_TCP, stub: STUB_SERVER_TCP },
                 Batch { name: "paired_client_encoding", f: scen::paired::client_encoding, cfg: cfg(Mode::LockStep, false, 0), runs: n(10_000, 300_000), real: REAL_CLIENT_TCP, stub: STUB_CLIENT_TCP },
+                Batch { name: "level_storm_stalled_session", f: scen::server_tcp::run_level_storm, cfg: cfg(Mode::LockStep, true, 0), runs: n(10_000, 300_000), real: REAL_SERVER_TCP, stub: STUB_SERVER_TCP },
             ],
             assumptions: vec!["paired runs use the canonical schedule so that the extra queued command of a level change cannot shift unrelated scheduling decisions"],
         },
